@@ -782,4 +782,62 @@ example : ∃ fr, playFrame wMark (xmpStartPlayer wMark { wMarkAt 4 with sequenc
   C17_next_after_start wMark _ 0 2 0 (by decide) rfl (by intro j h1 h2; omega) (by decide) (by decide) (by decide)
     (by decide) (by decide) (by decide)
 
+/-! ### Timing-mode changes between position calls (xmp_set_player FLAGS / CFLAGS / MODE)
+
+`xmp_seek_time` compares with the order times the scan recorded, and those depend on the timing
+mode (VBlank or CIA) of the *current module's* flags.  The scan itself is not modelled; what is
+proved is when it is re-run, and that the calls do not move the player.  The harness checks on
+the real library that after every such call the table equals the times at which playback in the
+timing mode in force really enters the orders. -/
+
+/-- **C17_set_cflags**: `xmp_set_player(XMP_PLAYER_CFLAGS, v)` stores `v` as the flags of the
+current module and re-runs the scan exactly when the VBLANK bit of those flags changes; order,
+position, row, tick and flow state are untouched; the sequence is kept unless the rescan left
+fewer sequences. -/
+theorem C17_set_cflags (s : St) (v n : Int) (hs : s.playing = true) :
+    let r := xmpSetCflags s v n
+    r.ret = 0 ∧ r.st.flags = v ∧ (r.rescan = true ↔ s.flags % 2 ≠ v % 2) ∧
+    r.st.ord = s.ord ∧ r.st.pos = s.pos ∧ r.st.row = s.row ∧ r.st.frame = s.frame ∧ r.st.f = s.f ∧
+    r.st.sequence = (if s.flags % 2 ≠ v % 2 ∧ s.sequence ≥ n then 0 else s.sequence) := by
+  by_cases h : s.flags % 2 ≠ v % 2
+  · by_cases h2 : s.sequence ≥ n <;> simp [xmpSetCflags, hs, h, clampSequence, h2]
+  · simp [xmpSetCflags, hs, h]
+
+/-- `xmp_set_player(XMP_PLAYER_FLAGS, v)` only sets the defaults of the next load: no rescan, no
+change to the playing module. -/
+theorem C17_set_flags (s : St) (v : Int) (hs : s.playing = true) :
+    xmpSetFlags s v = ⟨0, s, false⟩ := by simp [xmpSetFlags, hs]
+
+/-- a history `CFLAGS = VBLANK ; CFLAGS = 0` (with any `FLAGS` calls in between) on a module that
+started in CIA timing re-runs the scan both times: the second call really changes the timing
+mode back although the *default* flags never changed. -/
+theorem C17_cflags_roundtrip_rescans (s : St) (n n' d : Int) (hs : s.playing = true)
+    (h0 : s.flags % 2 = 0) :
+    (xmpSetCflags s 1 n).rescan = true ∧
+    (xmpSetCflags (xmpSetFlags (xmpSetCflags s 1 n).st d).st 0 n').rescan = true := by
+  have h1 : ¬ (s.flags % 2 = 1) := by omega
+  have hp : (xmpSetCflags s 1 n).st.playing = true := by
+    by_cases h2 : s.sequence ≥ n <;> simp [xmpSetCflags, hs, h1, clampSequence, h2]
+  have hf : (xmpSetCflags s 1 n).st.flags = 1 := (C17_set_cflags s 1 n hs).2.1
+  refine ⟨by simp [xmpSetCflags, hs, h1], ?_⟩
+  rw [C17_set_flags _ d hp]
+  generalize (xmpSetCflags s 1 n).st = s1 at hp hf
+  simp [xmpSetCflags, hp, hf]
+
+/-- `xmp_set_player(XMP_PLAYER_MODE, v)`: a mode outside the XMP_MODE_* range is refused and
+nothing changes; a valid mode always re-runs the scan and leaves order, position, row, tick
+and flow state alone. -/
+theorem C17_set_mode (s : St) (v n : Int) (ok : Bool) (hs : s.playing = true) :
+    (¬(0 ≤ v ∧ v ≤ modeMax) → xmpSetMode s v n ok = ⟨errInvalid, s, false⟩) ∧
+    ((0 ≤ v ∧ v ≤ modeMax) → (xmpSetMode s v n ok).rescan = true ∧
+      (xmpSetMode s v n ok).st.ord = s.ord ∧ (xmpSetMode s v n ok).st.pos = s.pos ∧
+      (xmpSetMode s v n ok).st.row = s.row ∧ (xmpSetMode s v n ok).st.frame = s.frame ∧
+      (xmpSetMode s v n ok).st.f = s.f) := by
+  refine ⟨fun h => by simp [xmpSetMode, hs, h], fun h => ?_⟩
+  by_cases h2 : s.sequence ≥ n <;> simp [xmpSetMode, hs, h, clampSequence, h2]
+
+example : (xmpSetCflags wTwoMid 1 1).rescan = true ∧ (xmpSetCflags wTwoMid 2 1).rescan = false := by decide
+example : (xmpSetCflags (xmpSetFlags (xmpSetCflags wTwoMid 1 1).st 1).st 0 1).rescan = true :=
+  (C17_cflags_roundtrip_rescans wTwoMid 1 1 1 rfl (by decide)).2
+
 end Xmp.Control
